@@ -5,6 +5,7 @@ arbitrary event (operator command, gossip packet from anybody, completion, failu
 reading; the ∀-history statements follow by induction over the event list (`c08_*_run`).
 -/
 import Drand.DKG.Process
+import Gen.Locks
 
 namespace Drand.DKG
 open Drand
@@ -31,6 +32,12 @@ theorem tie_terminal : Gen.terminalStates = [.aborted, .timedOut, .failed] := by
   rfl
 theorem tie_proposal_phase : Gen.proposalPhase = [.proposing, .proposed, .accepted, .rejected, .joined] := by
   rfl
+
+/-- the model's `command` / `packet` are single atomic steps (read the stored state, decide, write): in the code that is
+the process mutex, taken by `Command` and by `Packet` before they touch any state of the process and held until they
+return. With a narrower critical section a packet served between a command's read and its write would be overwritten
+by a transition computed from the stale copy, and the ∀-history theorems would not speak about the code. -/
+theorem tie_process_steps_atomic : Gen.processCommandAtomic = true ∧ Gen.processPacketAtomic = true := by decide
 
 /-! ### proof infrastructure: the `Except` plumbing, what each validator and each `DBState` method guarantees -/
 
